@@ -7,12 +7,17 @@ from .common import VERIF, seed as _seed
 CURRENT = []
 
 
+PRELUDE = None
+
+
 class Report:
     def __init__(self, pid, tier, level="model_checking"):
         CURRENT.append(self)
         self.pid, self.tier, self.level = pid, tier, level
         self.cov = {"states": 0, "transitions": 0, "traces_validated_against_impl": 0, "samples": [],
                     "spec_computed_events": 0, "oracle_relation_events": 0, "parts": {}}
+        if PRELUDE is not None:
+            self.cov["parts"]["prelude_failing_calls"] = {"kind": "history", "refused_calls_before_recording": PRELUDE}
         self.assumptions = []
         self.violations = []   # dicts: key, what, data
         self.t0 = time.time()
